@@ -8,7 +8,8 @@ Driver for the cost model.
                                                                    -> <day|site> <unitCost> <upfrontTotal> <deployCost>
   row <first> [[deploy,upfront],...] <repCost> <natRepCost>        -> <cost> <repCost> <natRepCost> [cols]
   prog [[[[deploy,upfront],...],rep,nat],...]                      -> cost;cost;... | <total>
-  repair <start> <nrd> <delay> <N> <cost> [[day,company,trd],...]  -> rep:nat;rep:nat;... | <sumRep> <sumNat>
+  repair <start> <nrd> <delay> <N> <cost> [[day,company,trd],...] [<intermittent> <activeDur> <inactiveDur>]
+                                                                   -> rep:nat;rep:nat;... | <sumRep> <sumNat>
   mcost <S> <stationary> <charge> [[R,T,workable,served],...]      -> <total charged> <complete>
 -/
 open LdarModel LdarModel.Crew LdarModel.Cost LdarModel.Proto
@@ -70,7 +71,8 @@ def step (_ : Unit) (toks : List String) : Unit × String :=
     match int? pd, optInt? ps, int? up, nat? sc, bool? st, int? b, nat? n, bool? cw, parseEnv env, listOf? parseReq reqs with
     | some pd, some ps, some up, some sc, some st, some b, some n, some cw, some env, some reqs =>
       let c := mkCost pd ps up
-      let md := methodDay c st cw env sc b n reqs
+      let _ := sc
+      let md := methodDay c st cw env b n reqs
       ((), s!"{showType (selectCost c).1} {(selectCost c).2} {md.upfront} {md.deploy}")
     | _, _, _, _, _, _, _, _, _, _ => ((), "bad-op")
   | ["row", f, ms, r, n] =>
@@ -95,6 +97,16 @@ def step (_ : Unit) (toks : List String) : Unit × String :=
       ((), ";".intercalate (days.map (fun x => s!"{x.1}:{x.2}")) ++
            s!" | {sumTo (fun d => (bookDay p cost ev d).1) n} {sumTo (fun d => (bookDay p cost ev d).2) n}")
     | _, _, _, _, _, _ => ((), "bad-op")
+  | ["repair", st, nrd, dl, n, cost, evs, im, ad, idr] =>
+    match int? st, int? nrd, int? dl, nat? n, int? cost, listOf? parseEv evs, bool? im, int? ad, int? idr with
+    | some st, some nrd, some dl, some n, some cost, some evs, some im, some ad, some idr =>
+      let p : Emission.Params := { start := st, nrd := nrd, repairDelay := dl, repairable := true,
+                                   intermittent := im, activeDur := ad, inactiveDur := idr }
+      let ev : Nat → List Emission.TagEv := fun d => (evs.filter (fun e => e.1 = d)).map (·.2)
+      let days := (List.range n).map (fun d => bookDay p cost ev d)
+      ((), ";".intercalate (days.map (fun x => s!"{x.1}:{x.2}")) ++
+           s!" | {sumTo (fun d => (bookDay p cost ev d).1) n} {sumTo (fun d => (bookDay p cost ev d).2) n}")
+    | _, _, _, _, _, _, _, _, _ => ((), "bad-op")
   | ["mcost", s, st, ch, days] =>
     match int? s, bool? st, int? ch, listOf? parseDayIn days with
     | some s, some st, some ch, some days =>
